@@ -122,6 +122,9 @@ func buildRep(v any) reflect.Value {
 	switch m["t"] {
 	case "null":
 		out = reflect.Value{}
+		if rep == "nilptr" { // a typed nil pointer: also JSON null (stored in an interface it is a NON-nil interface value)
+			out = reflect.Zero(reflect.TypeOf((*int)(nil)))
+		}
 	case "bool":
 		out = reflect.ValueOf(m["b"].(bool))
 	case "num":
@@ -167,6 +170,9 @@ func buildRep(v any) reflect.Value {
 		kt := reflect.TypeOf("")
 		if rep == "namedkey" {
 			kt = reflect.TypeOf(NamedKey(""))
+		}
+		if rep == "numberkey" { // json.Number is a string-kind type too: map[json.Number]any
+			kt = reflect.TypeOf(json.Number(""))
 		}
 		out = reflect.MakeMapWithSize(reflect.MapOf(kt, et), len(keys))
 		for i, k := range keys {
